@@ -206,3 +206,22 @@ func sizeClass(t *simrt.Tape, label string, max int) int {
 	}
 	return n
 }
+
+// withTail returns a copy of d that is a prefix of a larger array owned by the caller (as a document cut out
+// of a receive buffer is), and a function telling whether the bytes behind the document are still intact.
+func withTail(d []byte) ([]byte, func() bool) {
+	const tail = 24
+	whole := make([]byte, len(d)+tail)
+	copy(whole, d)
+	for i := len(d); i < len(whole); i++ {
+		whole[i] = 0xA5
+	}
+	return whole[:len(d)], func() bool {
+		for i := len(d); i < len(whole); i++ {
+			if whole[i] != 0xA5 {
+				return false
+			}
+		}
+		return true
+	}
+}
